@@ -19,8 +19,23 @@ def showVerdict : Verdict → String
   | .error e => "err:" ++ showClass e
   | .outOfFuel => "out-of-fuel"
 
+/-- option list on the wire: `a1p0;a-p2;…` (`a` ∈ 1,0,-  `p` ∈ digit,-) -/
+def parseOpts (s : String) : Option (List EncOpt) :=
+  (s.splitOn ";").filter (· ≠ "") |>.mapM (fun t =>
+    match t.toList with
+    | ['a', a, 'p', p] =>
+      let av := if a = '1' then some (some true) else if a = '0' then some (some false) else if a = '-' then some none else none
+      let pv := if p = '-' then some none else if p.isDigit then some (some (p.toNat - 48)) else none
+      match av, pv with
+      | some a, some p => some ⟨a, p⟩
+      | _, _ => none
+    | _ => none)
+
 def handle (op : String) (args : List String) : Option String :=
   match op, args with
+  | "opts", [o] => do
+    let os ← parseOpts o
+    pure (s!"{if effectiveAscii os then 1 else 0} {match effectiveProv os with | some p => toString p | none => "-"}")
   | "enc", [pkg, ascii, s, p, o, g] => do
     let (T, quads) ← tablesOf pkg
     let s ← (← parseTerm s)
